@@ -86,7 +86,9 @@ Check_GEN(r) ==
                    <<"encodes_like_the_definition",
                         \A i \in 1..Len(r.msgs[k].probes) :
                            r.msgs[k].probes[i].out = Encode(m, r.msgs[k].probes[i].vals, r.msgs[k].probes[i].v2)>> >>
-  IN IF ~Expressible(doc)
+  IN IF ~EnumValuesUnique(doc)
+     THEN {"H_document_of_the_grammar_is_valid_mavlink"}
+     ELSE IF ~Expressible(doc)
      THEN Failed_(<< <<"inexpressible_definition_reported", r.gen_err>> >>)
      ELSE Failed_(<< <<"generator_accepts_valid_xml", ~r.gen_err>>,
                      <<"generating_twice_gives_identical_files", r.deterministic>>,
